@@ -87,6 +87,34 @@ func rulesC16(r *Run) {
 			errorDiscipline(r, "R8", fn)
 		}
 	}
+
+	// R9 (mutation sweep): "accepts a plan if and only if it is well formed" needs every refusal to reach the caller. The K6
+	// error-discipline rule over the admission path: Submit and Start with what they reach in the API package, in
+	// internal/execute's validators and in package workflow's Validate chain, and the registry's Register.
+	r.Kind("R9", "K6")
+	{
+		in := func(e CallEdge) bool {
+			return strings.HasPrefix(e.Callee, "coercion.") || strings.HasPrefix(e.Callee, "workflow.") || strings.HasPrefix(e.Callee, pkgExec+".") || strings.HasPrefix(e.Callee, "plugins/registry.")
+		}
+		reach := r.P.CallGraph().Reach([]string{"coercion.Workstream.Submit", "coercion.Workstream.Start", wfKey("Validate"), execKey("Plans.Start"), "plugins/registry.Register.Register"}, in)
+		var keys []string
+		for k := range reach {
+			keys = append(keys, k)
+		}
+		sort.Strings(keys)
+		for _, k := range keys {
+			fn := r.P.Funcs[k]
+			if fn == nil || fn.Decl.Body == nil || !hasErrorResult(fn) {
+				continue
+			}
+			if rel := relPkg(fn.Pkg.PkgPath); rel != "" && rel != "workflow" && rel != pkgExec && rel != "plugins/registry" {
+				continue
+			}
+			r.Funcs[k] = true
+			errorDiscipline(r, "R9", fn)
+		}
+		r.Expect("R9", 40)
+	}
 	r.Expect("R8", 30)
 }
 
